@@ -84,8 +84,12 @@ func (r *Run) Check(construct string, pos token.Pos, ok bool, good, bad string) 
 	return ok
 }
 
-func (r *Run) OK(construct string, pos token.Pos, detail string)   { r.add(construct, pos, Discharged, detail) }
-func (r *Run) Fail(construct string, pos token.Pos, detail string) { r.add(construct, pos, Violated, detail) }
+func (r *Run) OK(construct string, pos token.Pos, detail string) {
+	r.add(construct, pos, Discharged, detail)
+}
+func (r *Run) Fail(construct string, pos token.Pos, detail string) {
+	r.add(construct, pos, Violated, detail)
+}
 func (r *Run) Undecided(construct string, pos token.Pos, detail string) {
 	r.add(construct, pos, Undecided, detail)
 }
